@@ -212,16 +212,34 @@ def run_real(case, tmp):
     if case.get("via") == "path":
         taps = {kind: OPENED[os.path.join(tmp, kind)] for kind in taps}
 
+    import weakref
+
+    simref = weakref.ref(sim)
+
     def snap():
-        return (int(sim.step_count), [int(z) for z in sim.atoms.numbers], sim.atoms.get_positions().tolist())
+        sm = simref()
+        return (int(sm.step_count), [int(z) for z in sm.atoms.numbers], sm.atoms.get_positions().tolist())
 
     obs = sim.file_manager.observers
     for name, kind in (("default_logger", "log"), ("default_trajectory", "traj"), ("default_restart", "restart")):
         obs[name] = CallMark(obs[name], taps[kind], snap)
     for seg in case["segs"]:
         sim.run(seg)
+    if case.get("drop_sim"):
+        # the simulation object goes away before its files are closed (built in a function, rebound, interpreter exit):
+        # closing the observers afterwards — what the file manager's atexit hook does — must leave the files as they are
+        import gc
+
+        fm = sim.file_manager
+        del sim, obs
+        gc.collect()
+        try:
+            fm.close()
+        except Exception:  # noqa: BLE001  (what close() raises is not under test; what it leaves on disk is)
+            pass
     for t in taps.values():
-        t.close()
+        if not t.closed:
+            t.close()
     return taps
 
 
@@ -488,7 +506,7 @@ class FileCrash(common.Suite):
         for mode in ("a", "w"):
             for existing in (True, False):
                 out.append({"mode": mode, "existing": existing, "mu": -4.0, "rep": 2, "interval": rng.choice([1, 5]),
-                            "segs": [6, 6], "seed": rng.randrange(1, 2**31), "via": "path"})
+                            "segs": [6, 6], "seed": rng.randrange(1, 2**31), "via": "path", "drop_sim": existing})
         # the system is emptied completely: frames and documents of a 0-atom state
         for mode in ("a", "w"):
             out.append({"mode": mode, "existing": False, "mu": -12.0, "rep": 1, "interval": 1, "segs": [14],
